@@ -198,3 +198,80 @@ func HugeIncomplete(name string, size int, bound int) *world.Scenario {
 	sc.Check = func(w *world.World) []world.Violation { return CheckStreams(w, StreamOpts{}) }
 	return sc
 }
+
+// TerseReplies: legal replies of minimal size - a status / error line with empty text, alone and nested, null array, nested
+// empty array - each followed by an ordinary request to the same node (one chunk / one chunk per request; every backend
+// read carries all ready replies or one).
+func TerseReplies(name string, bound int) []*world.Scenario {
+	var out []*world.Scenario
+	shapes := [][]byte{[]byte("+\r\n"), []byte("-\r\n"), []byte("*2\r\n+\r\n-\r\n"), []byte("*-1\r\n"), []byte("*1\r\n*0\r\n"), []byte("*2\r\n:0\r\n+\r\n"), []byte("-E\r\n"), []byte("+O\r\n")}
+	for i, shape := range shapes {
+		for _, one := range []bool{true, false} {
+			for _, co := range []bool{false, true} {
+				shape := shape
+				r := GetReq(keysA[9])
+				r.Kind, r.Expect = "TERSE", shape
+				reqs := []Req{GetReq(keysA[0]), r, GetReq(keysA[1]), GetReq(keysB[0])}
+				sc := &world.Scenario{Nodes: T3m(), Bound: bound, Horizon: 300, Family: "terse-replies", CoalesceAll: co}
+				sc.Clients = []world.ClientSpec{ClientOf(reqs, one)}
+				sc.Reply = func(w *world.World, bc *world.BConn, args [][]byte) ([]byte, int) {
+					if hasKey(args, keysA[9]) {
+						return shape, 0
+					}
+					return nil, 0
+				}
+				sc.Name = fmt.Sprintf("%s/terse-replies/shape%d/one=%v/coalesced=%v/d%d", name, i, one, co, bound)
+				sc.Check = func(w *world.World) []world.Violation { return CheckStreams(w, StreamOpts{}) }
+				out = append(out, sc)
+			}
+		}
+	}
+	return out
+}
+
+// ConfiguredLimit: the proxy is started through the REAL core.Run with msg_max_length_limit = limit exactly as configured
+// (0 = not configured: 6 MiB). A SET just inside the limit is forwarded and served, one just above it is answered with the
+// too-large error and never forwarded, and the connection stays usable.
+func ConfiguredLimit(name string, limit int, bound int) *world.Scenario {
+	eff := limit
+	if eff < 1 {
+		eff = 6 << 20
+	}
+	mk := func(total int) Req {
+		// "*3\r\n$3\r\nset\r\n$2\r\nk1\r\n$<n>\r\n<v>\r\n": pick n so that the whole request is `total` bytes
+		for n := total; n >= 0; n-- {
+			r := SetReq(keysA[0], patterned("L", n))
+			if len(r.Bytes) == total {
+				return r
+			}
+			if len(r.Bytes) < total {
+				break
+			}
+		}
+		return SetReq(keysA[0], "v")
+	}
+	inside, above := mk(eff), mk(eff+1)
+	above.Expect = []byte(world.RErrReqLarge)
+	above.Local = true
+	reqs := []Req{GetReq(keysB[0]), inside, above, GetReq(keysC[0])}
+	cs := ClientOf(reqs, false)
+	for j := range cs.Chunks {
+		cs.Chunks[j].WaitTicks, cs.Chunks[j].WaitReplies = 3, j
+		cs.Chunks[j].Gate = func(w *world.World) bool { return w.ProbesIdle() }
+	}
+	sc := &world.Scenario{Nodes: T3m(), Bound: bound, Family: "configured-limit-through-real-Run", Horizon: 3000, RealBoot: true, RealRun: true,
+		Seeds: []string{AddrA, AddrB, AddrC}, RefreshLoop: true, CheckOwner: true, MaxLen: limit, NoVariant: true,
+		Ticks: []time.Duration{1100 * time.Millisecond, 1100 * time.Millisecond, 1100 * time.Millisecond}}
+	sc.TickGate = func(w *world.World) bool { return w.ProbesIdle() }
+	sc.Clients = []world.ClientSpec{cs}
+	sc.Name = fmt.Sprintf("%s/configured-limit/%d/d%d", name, limit, bound)
+	sc.Check = func(w *world.World) []world.Violation {
+		for _, rec := range w.DataCmds("") {
+			if len(rec.Raw) == len(above.Bytes) {
+				return []world.Violation{{Sig: "oversize-request-forwarded", Msg: fmt.Sprintf("configured limit %d: a request of %d bytes was forwarded", limit, len(rec.Raw))}}
+			}
+		}
+		return CheckStreams(w, StreamOpts{})
+	}
+	return sc
+}
